@@ -99,6 +99,14 @@ CHECKS = {
             "recomputed from weights/factors by the reference formula and the promised normal form is asserted.",
             "Trusted: mc/refmodel.py kruskal(); integer factor entries; tolerance 1e-12*scale where normalisation divides.",
             TECH_PRODUCT, "DESIGN.md §6 C08"),
+    "C19": ("A catalogue in a small JSON call language: for every operation and every shape of the scope the valid call (control, "
+            "must not raise) and one case per way of violating one precondition that the statement names (mismatches that happen "
+            "to broadcast, wrong lengths that divide, repeated / negative / out-of-range modes, non-permutations, count-changing "
+            "reshapes, inconsistent constructor components, bad algorithm options); the call must raise and a bit-level snapshot "
+            "of receiver and arguments must be unchanged.",
+            "Trusted: the list of preconditions read from statement + docstrings (dense-dense broadcasting and value-domain "
+            "conditions are out of scope); two upstream-test-pinned acceptances are known findings.",
+            TECH_PRODUCT, "DESIGN.md §6 C19"),
 }
 PENDING = {f"C{i:02d}": "check not built yet in this phase (planned, see DESIGN.md §6)" for i in range(1, 21) if f"C{i:02d}" not in CHECKS}
 NOT_APPLICABLE = {}
